@@ -320,7 +320,7 @@ func c09GenFaults(r *kit.Rand, c *c09Case, st *c09Step, n int, kinds []string) {
 		f := c09Fault{Target: t.name, Times: 1}
 		switch t.kind {
 		case "manifest":
-			f.Kind = kit.Pick(r, []string{"status500", "status404", "garbage", "truncated-json", "reset", "no-layers"})
+			f.Kind = kit.Pick(r, []string{"status500", "status404", "garbage", "truncated-json", "reset", "no-layers", "null-layer"})
 		case "chunksums":
 			f.Kind = kit.Pick(r, []string{"status500", "status404", "status204", "reset", "reset-mid"})
 		default:
@@ -472,6 +472,24 @@ func c09Gen(r *kit.Rand, idx int) *c09Case {
 			}
 		}
 		return st
+	}
+	if r.Chance(1, 20) {
+		// a manifest that lists one blob twice, and one of the two transfers of it is damaged: the two
+		// downloads share a file
+		c.Shape = "dup-layer"
+		c.Blobs[0] = c09MakeBlob(r, r.Range(80<<10, 200<<10)) // transfers of more than one 32 KiB piece
+		delete(c.Plans, 0)
+		if c.chunked(0) {
+			c.Plans[0] = c09Plan{Kind: "tiling", Lines: c09Tiling(r, int64(c.Blobs[0].Size), r.Range(1, 2))}
+		}
+		c.MaxStreams = kit.Pick(r, []int{2, 4, 8, 8})
+		c.Versions = []c09Version{{Layers: []int{0, 1, 0}, Config: -1}}
+		st := c09Step{Op: "pull", Version: 0}
+		order(&st)
+		st.Faults = []c09Fault{{Target: fmt.Sprintf("chunk:0:%d", r.Intn(len(c.plan(nil, 0).Lines))), Kind: kit.Pick(r, []string{"corrupt-first", "corrupt-first", "rotate", "rotate", "corrupt-last", "short"}), Times: 1}}
+		c.Steps = []c09Step{st, clean(0), clean(0)}
+		c.finish()
+		return c
 	}
 	switch r.Intn(10) {
 	case 0, 1, 2:
@@ -712,8 +730,8 @@ type c09World struct {
 	watchEnd chan struct{}
 
 	// facts for signatures
-	fetched     map[int][][2]int64
-	partial     map[int]bool
+	fetched      map[int][][2]int64
+	partial      map[int]bool
 	deletedAfter map[int]bool
 
 	violated     bool
@@ -999,6 +1017,8 @@ func (w *c09World) serveManifest(a *c09Attempt, rw http.ResponseWriter, r *http.
 		rw.Write(data[:len(data)/2])
 	case "no-layers":
 		io.WriteString(rw, `{"layers":[]}`)
+	case "null-layer":
+		io.WriteString(rw, `{"layers":[null]}`)
 	case "reset":
 		c09Reset(rw)
 	default:
@@ -1457,7 +1477,15 @@ func (w *c09World) cause(a *c09Attempt, b int) string {
 	case len(distinct) < want:
 		asked = "ranges-skipped" // accepted through 'v1 pull chunksum' markers
 	}
+	listed := 0
+	for _, x := range w.c.blobsOf(a.ver) {
+		if x == b {
+			listed++
+		}
+	}
 	switch {
+	case listed > 1:
+		return "same-blob-listed-twice:" + asked // two transfers of one blob shared a file
 	case asked == "layer-not-requested" && w.partial[b]:
 		return "retry-after-partial-download:" + asked
 	case asked == "ranges-skipped" && w.deletedAfter[b]:
@@ -1685,6 +1713,20 @@ func c09RunPullCase(t *testing.T, rep *kit.Report, c *c09Case, base string) {
 	}
 	rep.Count("cases_"+c.Mode, 1)
 	rep.Count("shape_"+c.Shape, 1)
+	if c.Mode == "enum" {
+		// which part of the enumerated sub-space a violation falls in
+		cls := "cancel-step"
+		if fs := c.Steps[0].Faults; len(fs) > 0 {
+			cls = "failing-chunk-not-last"
+			if strings.HasSuffix(fs[0].Target, fmt.Sprintf(":%d", len(c.Plans[0].Lines)-1)) {
+				cls = "failing-chunk-last"
+			}
+		}
+		rep.Count("enum_"+cls, 1)
+		if w.violated {
+			rep.Count("enum_"+cls+"_violated", 1)
+		}
+	}
 	if rep.NeedSample() && c.Mode == "random" && len(c.Steps) <= 3 && c.Blobs[0].Size < 6000 {
 		rep.Sample(c)
 	}
@@ -2147,7 +2189,7 @@ func TestVerifC09(t *testing.T) {
 		if replayIdx < 0 && !cfg.Mine(i) {
 			continue
 		}
-		if replayIdx < 0 && (rep.Enough() || rep.OverBudget()) {
+		if replayIdx < 0 && ((rep.Enough() && os.Getenv("VERIF_C09_NOSTOP") == "") || rep.OverBudget()) {
 			break
 		}
 		if only != "" && replayIdx < 0 { // development aid: run one block only
